@@ -100,7 +100,9 @@ impl ClockAccuracy {
             Self::S1 => 0x2f,
             Self::S10 => 0x30,
             Self::SGT10 => 0x31,
-            Self::ProfileSpecific(value) => 0x80 + value,
+            // the profile specific range is 0x80..=0xfd; a value beyond it (the
+            // variant can be built or deserialized with any u8) must not overflow
+            Self::ProfileSpecific(value) => 0x80u8.saturating_add(value).min(0xfd),
             Self::Unknown => 0xfe,
         }
     }
